@@ -435,5 +435,29 @@ pub fn build_small() -> Corpus {
     for (n, f) in contract_parts() {
         acc.add("S.d", n, in_contract(f));
     }
+    // realistic items (the C19 pool) under both sides of the version thresholds, SafeMath attached,
+    // and multi-part string literals: the version-gated detectors must be live in this corpus too
+    let extra = [
+        ("multipart", "contract MP { function f ( bool c ) public { require ( c , \"insufficient~\" \"balance\" ) ; require ( c , \"this~part~is~long~enough~\" \"to~pass~thirty-two~bytes~in~total\" ) ; require ( c , unicode\"é\" 'x' ) ; } }"),
+        ("safemath", "contract SM { using SafeMath for uint256 ; function f ( uint256 a , uint256 b ) public returns ( uint256 ) { return a . add ( b ) . mul ( a . sub ( b ) ) . div ( 2 ) ; } }"),
+        ("longstring", "contract LS { function f ( bool c ) public { require ( c , \"this~revert~string~is~longer~than~thirty-two~bytes\" ) ; require ( c , \"short\" ) ; } }"),
+    ];
+    let mut items: Vec<(String, Vec<String>)> = Vec::new();
+    for (n, t) in crate::c19::pool() {
+        items.push((n.to_string(), t.split(' ').filter(|x| !x.is_empty()).map(|x| x.replace('#', "0").replace('~', " ")).collect()));
+    }
+    for (n, t) in extra {
+        items.push((n.to_string(), t.split(' ').filter(|x| !x.is_empty()).map(|x| x.replace('~', " ")).collect()));
+    }
+    for (n, toks) in items {
+        for ver in ["0.7.6", "0.8.3", "0.8.19"] {
+            let mut all: Vec<String> = vec!["pragma".into(), "solidity".into(), ver.into(), ";".into()];
+            if ver == "0.7.6" {
+                all.extend("using SafeMath for uint256 ;".split(' ').map(|x| x.to_string()));
+            }
+            all.extend(toks.iter().cloned());
+            acc.add("S.pool", format!("{}@{}", n, ver), Frag { toks: all, nodes: Vec::new(), prec: 0, open: false });
+        }
+    }
     Corpus { progs: acc.progs, generated: acc.generated, families: acc.families }
 }
